@@ -1598,6 +1598,8 @@ def select__filter(self: XPathFunction, context: ta.ContextType = None)\
 
     for item in self[0].select(context):
         cond = func(item, context=context)
+        if isinstance(cond, list) and len(cond) == 1:
+            cond = cond[0]  # a sequence of one item is that item
         if not isinstance(cond, bool):
             raise self.error('XPTY0004', 'a single boolean value required')
         if cond:
